@@ -175,13 +175,20 @@ func runC15(c *Ctx, r *Report) {
 							}
 						case isCallTo(x, pi.peekTokenIs, pi.curTokenIs):
 						default:
+							sub := false
 							if sc := x.Common().StaticCallee(); sc != nil && shifts[sc] {
-								return // another parse function takes over; it is explored on its own
+								sub = true // another parse function takes over; it is explored on its own
 							}
 							if sc := x.Common().StaticCallee(); sc == nil && !x.Common().IsInvoke() {
 								if _, isB := x.Common().Value.(*ssa.Builtin); !isB {
-									return // registry call
+									sub = true // registry call
 								}
+							}
+							if sub {
+								// ... and when it comes back without having asked for more input, the line ended right
+								// after what it parsed: the current token is its last one, the next is the end of line
+								// (if it did ask, continuation is pending and nothing recorded later matters)
+								st.curEOL, st.peekEOL = 0, 1
 							}
 						}
 					}
